@@ -47,6 +47,3 @@ type Spec_criteriaToMix struct {
 type Spec_mixResult struct {
 	c1, c2, result model.Weights
 }
-
-type Spec_CriteriaMixingResult struct {
-}
